@@ -73,6 +73,10 @@ def add_columns(df, rng, where, force=()):
         "season": np.array(["kharif" if (i // 180) % 2 else "rabi" for i in range(n)], dtype=object),
         "gdd": np.round(rng.uniform(0, 30, n), 1),
         "index": np.arange(n, dtype=float)[::-1].copy(),
+        # labels that are not strings (a concatenated unnamed Series, a year, a tuple)
+        0: np.round(rng.uniform(0, 1, n), 3),
+        1990: np.round(rng.uniform(0, 40, n), 1),
+        ("obs", "qc"): np.array([i % 2 for i in range(n)], dtype=float),
     }
     # unrelated columns may well be incomplete: missing values on days inside the window
     holes = rng.choice(n, size=min(n, 6), replace=False)
@@ -81,7 +85,8 @@ def add_columns(df, rng, where, force=()):
     lg = extras["Logged"].to_series().reset_index(drop=True)
     lg.iloc[holes[3:]] = pd.NaT
     extras["Logged"] = lg.to_numpy()
-    names = list(rng.choice(list(extras), size=int(rng.integers(1, 5)), replace=False))
+    keys = list(extras)
+    names = [keys[int(j)] for j in rng.choice(len(keys), size=int(rng.integers(1, 5)), replace=False)]
     names += [x for x in force if x not in names]
     cols = list(df.columns)
     for k, name in enumerate(names):
@@ -108,6 +113,11 @@ def reindex(df, rng, kind):
         df.index = np.arange(n) % 5
     elif kind == "offset":
         df.index = np.arange(n) + 100000
+    elif kind == "date_named":
+        # the dates as index *and* column, the index carrying the column's name
+        df = df.set_index("Date", drop=False)
+    elif kind == "multi":
+        df.index = pd.MultiIndex.from_arrays([df["Date"].dt.year.to_numpy(), np.arange(n)], names=["Year", "row"])
     return df
 
 
@@ -121,6 +131,18 @@ def extra_rows(df, rng):
     trail = pd.DataFrame({"MinTemp": -30.0, "MaxTemp": -20.0, "Precipitation": 0.0, "ReferenceET": 0.1,
                           "Date": pd.date_range(d1 + pd.Timedelta(days=1), d1 + pd.Timedelta(days=b))})
     return pd.concat([lead[COLS], df[COLS], trail[COLS]], ignore_index=True)
+
+
+def dup_rows(df, rng):
+    """Two station files joined with an overlap that lies outside the window: some dates occur
+    twice (with different values)."""
+    out = extra_rows(df, rng)
+    lead = out[out["Date"] < df["Date"].iloc[0]].copy()
+    trail = out[out["Date"] > df["Date"].iloc[-1]].copy()
+    lead2, trail2 = lead.copy(), trail.copy()
+    lead2["Precipitation"] = 1.5
+    trail2["MaxTemp"] = -19.0
+    return pd.concat([lead[COLS], lead2[COLS], df[COLS], trail[COLS], trail2[COLS]], ignore_index=True)
 
 
 def nan_rows(df, rng):
@@ -209,11 +231,12 @@ def run_case(case):
         plans.append(("permutation", f"columns ordered {list(p)}", lambda df, p=p: df[list(p)]))
     for where in ("before", "between", "after"):
         plans.append(("extra_columns", f"unrelated columns {where}", lambda df, where=where: add_columns(df, rng, where, force=forced)))
-    for kind in ("reversed", "strings", "datetime", "nonunique", "offset", "unpadded", "shuffled"):
+    for kind in ("reversed", "strings", "datetime", "nonunique", "offset", "unpadded", "shuffled", "date_named", "multi"):
         plans.append(("index", f"index replaced ({kind})", lambda df, kind=kind: reindex(df, rng, kind)))
     plans.append(("extra_rows", "extra leading and trailing rows", lambda df: extra_rows(df, rng)))
     plans.append(("extra_rows", "extra leading and trailing rows with holes outside the window", lambda df: gap_rows(df, rng)))
     plans.append(("extra_rows", "extra leading and trailing rows with missing values (outside the window)", lambda df: nan_rows(df, rng)))
+    plans.append(("extra_rows", "extra leading and trailing rows whose dates occur twice (outside the window)", lambda df: dup_rows(df, rng)))
     for _ in range(3):
         p = PERMS[int(rng.integers(0, len(PERMS)))]
         kind = gen.pick(rng, ["reversed", "strings", "datetime", "offset", "unpadded", "shuffled"])
